@@ -66,7 +66,8 @@ class C08:
             "distinct by (creator, variant kinds present, layout, options)")
     required = ("variants_compared", "enum_nonsorted_variants", "spelling_variants", "relocated_variants",
                 "tracker_variants", "clock_variants", "dot_ending_variants")
-    assumptions = ("no symlinks; payload names valid UTF-8",)
+    assumptions = ("payload names valid UTF-8", "no symlinks, except dangling ones in 5 % of the directory cases, where "
+                   "only the consistency of the outcome (refused by every variant, or the same info everywhere) is judged")
 
     @staticmethod
     def gen(rng, tier, i):
@@ -81,6 +82,9 @@ class C08:
             o["comment"] = rng.choice(["c", "a comment"])
         return {"tree": tree, "pl_exp": exp, "route": rng.choice(ROUTES), "opts": o,
                 "pl_auto": rng.random() < 0.15, "seed": rng.randrange(1 << 30),
+                # dangling symbolic links among the payload: refusing the tree or skipping the links are both fine,
+                # but the outcome may not depend on spelling, location or enumeration order either
+                "dangling": (not tree["single"]) and rng.random() < 0.05,
                 "announce": gen.pick_urls(rng) if rng.random() < 0.6 else None}
 
     @staticmethod
@@ -175,6 +179,16 @@ class C08:
             variants.append(variant("after-other-work", prelude=pre))
         if case["route"].startswith("cli"):
             variants.append(variant("quiet", quiet=True))
+        if case.get("dangling"):
+            for copy_root in {v["path"] for v in variants if os.path.isabs(v["path"])}:
+                copy_root = os.path.normpath(copy_root)
+                if os.path.isdir(copy_root) and os.path.basename(copy_root) == name:
+                    subs = [copy_root] + [os.path.join(copy_root, d) for d in sorted(os.listdir(copy_root))
+                                          if os.path.isdir(os.path.join(copy_root, d))][:1]
+                    for d in subs:
+                        for ln in ("0-dangling", "m-dangling", "zz-dangling"):
+                            if not os.path.lexists(os.path.join(d, ln)):
+                                os.symlink("nowhere/at/all", os.path.join(d, ln))
         results = []
         for v in variants:
             st, val = fork_call(_variant_run, v, timeout=120)
@@ -183,6 +197,13 @@ class C08:
             results.append(val)
         counters, viol = {}, []
         base = results[0]
+        if "raw" not in base and case.get("dangling"):
+            ok = [v["kind"] for v, r in zip(variants, results) if "raw" in r]
+            if ok:
+                viol.append(oracles.V("outcome-differs", base_error=base["exc"], variants_that_succeeded=ok[:8]))
+            return {"violations": viol, "counters": {"dangling_link_cases": 1, "dangling_refused_by_every_variant": int(not ok)},
+                    "nontrivial": True, "sig": ["dangling", case["route"], tree["layout"]],
+                    "sample": {"route": case["route"], "base_error": base["exc"], "variants": len(variants)}}
         if "raw" not in base:
             viol.append(oracles.V("create-raised", variant="base", exc=base["exc"], tb=base["tb"]))
             return {"violations": viol, "counters": counters, "nontrivial": False, "sig": ["base-failed"],
@@ -472,11 +493,16 @@ class C09:
                 # an operation that FAILS (refused / undecodable metafile): whatever it leaves behind in the process
                 # must not influence later operations
                 fresh_id[0] += 1
-                bad = rng.choice(["meta/unsafe.torrent", "meta/garbage.torrent"])
-                hist.append(rng.choice([
+                bad = rng.choice(["meta/unsafe.torrent", "meta/garbage.torrent", "meta/nolength.torrent",
+                                  "meta/nolength.torrent", "meta/noroot.torrent"])
+                hist.append({"op": "recheck", "meta": bad, "content": "p", "via": rng.choice(["lib", "cli"])}
+                            if "no" in bad and rng.random() < 0.6 else rng.choice([
                     {"op": "rebuild", "meta": bad, "search": ".", "dest": f"dest{fresh_id[0]}", "via": rng.choice(["lib", "cli"])},
                     {"op": "recheck", "meta": bad, "content": "p", "via": "lib"},
                     {"op": "magnet", "meta": bad}]))
+                if metas and rng.random() < 0.6:
+                    # ... and the same kind of operation on a good metafile right afterwards
+                    hist.append({"op": "recheck", "meta": rng.choice(metas)[0], "content": rng.choice(["p", "."]), "via": "lib"})
                 continue
             if c < 0.28:
                 hist.append(mk_mut())
@@ -515,6 +541,13 @@ class C09:
                 fd.write(unsafe)
             with open(os.path.join(sb, "meta", "garbage.torrent"), "wb") as fd:
                 fd.write(b"this is not bencoding at all")
+            # v2 / hybrid metafiles of a nested tree called like the payload directory whose deepest leaf lacks its
+            # length / its root: the operation fails half-way through a directory walk
+            from .recheck_family import _malform
+            nested = [(("sub", "deep", "x.bin"), b"x" * 20000), (("sub", "y"), b"y" * 7), (("top",), b"t" * 33000)]
+            for nm, how, ver in (("nolength", "no-length", 2), ("noroot", "no-root", 3)):
+                with open(os.path.join(sb, "meta", nm + ".torrent"), "wb") as fd:
+                    fd.write(_malform(rt.build("p", files=nested, pl=16384, version=ver), how))
         counters, viol = {}, []
         server = _Server()
         creates_served = 0
@@ -536,7 +569,7 @@ class C09:
                     return {"inconclusive": "executor error", "traceback": str(ra.get("harness_error") or rb_.get("harness_error"))[-1500:]}
                 steps += 1
                 counters[op["op"] + "_steps"] = counters.get(op["op"] + "_steps", 0) + 1
-                if op.get("meta", "").endswith(("unsafe.torrent", "garbage.torrent")):
+                if op.get("meta", "").endswith(("unsafe.torrent", "garbage.torrent", "nolength.torrent", "noroot.torrent")):
                     counters["failing_operation_steps"] = counters.get("failing_operation_steps", 0) + 1
                 if op["op"] == "create":
                     creates_served += 1
